@@ -1,47 +1,65 @@
-(* Line-protocol driver around the functions generated from src/mbi/domain.py.  Same commands and output format as the
-   hand-written model's driver (ocaml/drv_c15.ml): a domain is a length-prefixed list of <attr> <size> pairs. *)
-open Gen_model
+(* Line-protocol driver around the functions GENERATED from the Python source: src/mbi/domain.py (same commands and output format as
+   the hand-written model's driver ocaml/drv_c15.ml) and GraphicalModel.belief_propagation (command bp_src, same input as `bp`). *)
+open Model
+open Io
 open DomainGen
-let toks : string list ref = ref []
-let next () = match !toks with t :: r -> toks := r; t | [] -> failwith "unexpected end of line"
-let rint () = int_of_string (next ())
-let rec nat_of_int n = if n <= 0 then O else S (nat_of_int (n - 1))
-let int_of_nat n = let rec go acc = function O -> acc | S m -> go (acc + 1) m in go 0 n
-let rnat () = nat_of_int (rint ())
-let rlist f = let n = rint () in let rec go i acc = if i >= n then List.rev acc else let x = f () in go (i + 1) (x :: acc) in go 0 []
-let str_nat n = string_of_int (int_of_nat n)
-let str_list f l = "[" ^ String.concat " " (List.map f l) ^ "]"
-let str_opt f = function None -> "ERR" | Some x -> f x
-let str_bool b = if b then "true" else "false"
+
 (* the constructor is the generated one: Domain(attrs, shape) *)
-let rdom () = let l = rlist (fun () -> let a = rnat () in let n = rnat () in (a, n)) in
+let rgdom () = let l = rlist (fun () -> let a = rnat () in let n = rnat () in (a, n)) in
   match init (List.map fst l) (List.map snd l) with Some d -> d | None -> failwith "constructor assertion"
-let str_dom d = str_list (fun (a, n) -> str_nat a ^ ":" ^ str_nat n) (List.combine d.f_attrs d.f_shape)
-let run cmd = match cmd with
-  | "dom_project" -> let d = rdom () in let l = rlist rnat in str_opt str_dom (project d (Inr l))
-  | "dom_project_str" -> let d = rdom () in let a = rnat () in str_opt str_dom (project d (Inl a))
-  | "dom_transpose" -> let d = rdom () in let l = rlist rnat in str_opt str_dom (transpose d (Inr l))
-  | "dom_marginalize" -> let d = rdom () in let l = rlist rnat in str_opt str_dom (marginalize d l)
-  | "dom_invert" -> let d = rdom () in let l = rlist rnat in str_opt (str_list str_nat) (invert d l)
-  | "dom_axes" -> let d = rdom () in let l = rlist rnat in str_opt (str_list str_nat) (axes d l)
-  | "dom_merge" -> let d = rdom () in let o = rdom () in str_opt str_dom (merge d o)
-  | "dom_contains" -> let d = rdom () in let o = rdom () in str_opt str_bool (contains d o)
-  | "dom_size" -> let d = rdom () in str_opt str_nat (size d None)
-  | "dom_size_of" -> let d = rdom () in let l = rlist rnat in str_opt str_nat (size d (Some (Inr l)))
-  | "dom_size_str" -> let d = rdom () in let a = rnat () in str_opt str_nat (size d (Some (Inl a)))
-  | "dom_canonical" -> let d = rdom () in let l = rlist rnat in str_opt (str_list str_nat) (canonical d l)
-  | "dom_sort_size" -> let d = rdom () in str_opt str_dom (sort d O)
-  | "dom_sort_name" -> let d = rdom () in str_opt str_dom (sort d (S O))
-  | "dom_eq" -> let d = rdom () in let o = rdom () in str_opt str_bool (dunder_eq d o)
-  | "dom_in" -> let d = rdom () in let a = rnat () in str_opt str_bool (dunder_contains d a)
-  | "dom_getitem" -> let d = rdom () in let a = rnat () in str_opt str_nat (dunder_getitem d a)
-  | "dom_len" -> let d = rdom () in str_opt str_nat (dunder_len d)
-  | "dom_init" -> let a = rlist rnat in let s = rlist rnat in str_opt str_dom (init a s)
-  | _ -> failwith ("unknown command " ^ cmd)
+let str_gdom d = str_list (fun (a, n) -> str_nat a ^ ":" ^ str_nat n) (List.combine d.f_attrs d.f_shape)
+
+type mdl = { shape : nat -> nat; dl : nat list; ncl : nat; scope : nat -> nat list; psi : nat -> (nat -> nat) -> Obj.t }
+let rqfactor () : qnn factor = let d = rdom () in let vs = rlist rqnn in { fdom = d; fvals = vs }
+let rmodel () : mdl =
+  let d = rdom () in
+  let n = rint () in
+  let arr = Array.make n ([], { fdom = []; fvals = [] }) in
+  for c = 0 to n - 1 do
+    let sc = rlist rnat in let _ = rlist rnat in let f = rqfactor () in arr.(c) <- (sc, f)
+  done;
+  let get c = let i = int_of_nat c in if i < n then Some arr.(i) else None in
+  let shape a = match lookup d a with Some k -> k | None -> S O in
+  { shape; dl = attrs d; ncl = nat_of_int n;
+    scope = (fun c -> match get c with Some (s, _) -> s | None -> []);
+    psi = (fun c -> match get c with Some (_, f) -> (fun x -> magic (tbl_of (magic (qnn_of Z0 XH)) (magic f) x)) | None -> (fun _ -> magic (qnn_of (Zpos XH) XH))) }
+let str_q (x : Obj.t) = str_qc (qv (magic x))
+let rec seqn i n = if i >= n then [] else nat_of_int i :: seqn (i + 1) n
+
 let () =
-  try while true do
-    let line = input_line stdin in
-    match List.filter (fun s -> s <> "") (String.split_on_char ' ' line) with
-    | [] -> print_endline ""
-    | cmd :: rest -> toks := rest; (try print_endline (run cmd) with e -> print_endline ("EXC " ^ Printexc.to_string e))
-  done with End_of_file -> ()
+  reg "dom_project" (fun () -> let d = rgdom () in let l = rlist rnat in str_opt str_gdom (project d (Inr l)));
+  reg "dom_project_str" (fun () -> let d = rgdom () in let a = rnat () in str_opt str_gdom (project d (Inl a)));
+  reg "dom_transpose" (fun () -> let d = rgdom () in let l = rlist rnat in str_opt str_gdom (transpose d (Inr l)));
+  reg "dom_marginalize" (fun () -> let d = rgdom () in let l = rlist rnat in str_opt str_gdom (marginalize d l));
+  reg "dom_invert" (fun () -> let d = rgdom () in let l = rlist rnat in str_opt (str_list str_nat) (invert d l));
+  reg "dom_axes" (fun () -> let d = rgdom () in let l = rlist rnat in str_opt (str_list str_nat) (axes d l));
+  reg "dom_merge" (fun () -> let d = rgdom () in let o = rgdom () in str_opt str_gdom (merge d o));
+  reg "dom_contains" (fun () -> let d = rgdom () in let o = rgdom () in str_opt str_bool (contains d o));
+  reg "dom_size" (fun () -> let d = rgdom () in str_opt str_nat (size d None));
+  reg "dom_size_of" (fun () -> let d = rgdom () in let l = rlist rnat in str_opt str_nat (size d (Some (Inr l))));
+  reg "dom_size_str" (fun () -> let d = rgdom () in let a = rnat () in str_opt str_nat (size d (Some (Inl a))));
+  reg "dom_canonical" (fun () -> let d = rgdom () in let l = rlist rnat in str_opt (str_list str_nat) (canonical d l));
+  reg "dom_sort_size" (fun () -> let d = rgdom () in str_opt str_gdom (sort d O));
+  reg "dom_sort_name" (fun () -> let d = rgdom () in str_opt str_gdom (sort d (S O)));
+  reg "dom_eq" (fun () -> let d = rgdom () in let o = rgdom () in str_opt str_bool (dunder_eq d o));
+  reg "dom_in" (fun () -> let d = rgdom () in let a = rnat () in str_opt str_bool (dunder_contains d a));
+  reg "dom_getitem" (fun () -> let d = rgdom () in let a = rnat () in str_opt str_nat (dunder_getitem d a));
+  reg "dom_len" (fun () -> let d = rgdom () in str_opt str_nat (dunder_len d));
+  reg "dom_init" (fun () -> let a = rlist rnat in let s = rlist rnat in str_opt str_gdom (init a s));
+  (* bp_src <model> <schedule> <total> [c0] : the GENERATED belief_propagation; sep_axes[(i,j)] = attributes of clique i that clique j shares
+     (the harness checks the code's sep_axes against that set); potentials materialised as the tries of the model *)
+  reg "bp_src" (fun () ->
+    let m = rmodel () in
+    let sch = rlist (fun () -> let i = rnat () in let j = rnat () in (i, j)) in
+    let total = rqnn () in
+    let want_z = (try rint () with _ -> 1) <> 0 in
+    let sep i j = List.filter (fun a -> List.mem a (m.scope j)) (m.scope i) in
+    let n = int_of_nat m.ncl in
+    let pots = List.map (fun c -> mat qnnSF m.shape m.dl (m.psi c)) (seqn 0 n) in
+    let z = if not want_z then None else match belief_propagation qnnSF m.shape m.dl m.ncl m.scope sep sch (magic total) pots true with Inl z -> Some z | Inr _ -> failwith "logZ branch" in
+    let bs = match belief_propagation qnnSF m.shape m.dl m.ncl m.scope sep sch (magic total) pots false with Inr b -> b | Inl _ -> failwith "marginal branch" in
+    let tbls = List.map (fun c ->
+        let b = List.nth bs (int_of_nat c) in
+        List.map (fun cell -> lk qnnSF m.dl b (asg_of (m.scope c) cell)) (cells (List.map m.shape (m.scope c)))) (seqn 0 n) in
+    (match z with Some z -> str_q z | None -> "-") ^ " " ^ String.concat " " (List.map (fun l -> str_list str_q l) tbls));
+  ()
